@@ -144,10 +144,10 @@ func genPostgres(tier string, yield func(Case) bool) bool {
 
 func genSocks(tier string, yield func(Case) bool) bool {
 	type cfg struct {
-		json     string
-		cmds     []byte
-		ports    []uint16
-		nets     []string
+		json  string
+		cmds  []byte
+		ports []uint16
+		nets  []string
 	}
 	cfgs := []cfg{
 		{`{}`, []byte{1, 2}, nil, nil},
@@ -329,10 +329,10 @@ var winboxUserRe = regexp.MustCompile("^[0-9A-Za-z](?:[-#.0-9@A-Z_a-z]+[0-9A-Za-
 
 func genWinbox(tier string, yield func(Case) bool) bool {
 	type cfg struct {
-		json        string
-		std, romon  bool
-		user        string
-		re          *regexp.Regexp
+		json       string
+		std, romon bool
+		user       string
+		re         *regexp.Regexp
 	}
 	cfgs := []cfg{
 		{`{}`, true, true, "", nil},
@@ -816,7 +816,7 @@ func main() {
 	runner.Main(&runner.Harness{
 		ID:    "C14",
 		Level: "model_checking",
-		Rule: "per-protocol generators of complete first messages over boundary grids of their fields plus single-field corruptions, under several filter configurations each: ssh, xmpp, proxy_protocol, postgres (request codes, versions, parameters, corrupt lengths), socks4 (version x command x port x address x command/port/network filters), socks5 (method lists x auth_methods), regexp (patterns x count), wireguard (lengths x type x zero), openvpn plain hard-reset (TCP/UDP, opcode, session, acks, packet id, modes), winbox (user names, key length, parity, modes, username filters, 1-2 chunks), dns (names x types x classes x all 16 allow/deny/default_deny/prefer_allow combinations, TCP/UDP, header-bit corruptions), rdp (negotiation flags/protocol bits, cookie filters, structural corruptions), http (methods, hosts, paths, headers x request matcher sets), remote_ip/local_ip and 'not' (IPv4/IPv6 prefixes), clock (window boundaries +-1 s, swapped bounds, 24:00, fixed-offset and IANA zones on DST days); reference predicates are written in the harness from the wire definitions and the modules' documented filter semantics",
+		Rule:  "per-protocol generators of complete first messages over boundary grids of their fields plus single-field corruptions, under several filter configurations each: ssh, xmpp, proxy_protocol, postgres (request codes, versions, parameters, corrupt lengths), socks4 (version x command x port x address x command/port/network filters), socks5 (method lists x auth_methods), regexp (patterns x count), wireguard (lengths x type x zero), openvpn plain hard-reset (TCP/UDP, opcode, session, acks, packet id, modes), winbox (user names, key length, parity, modes, username filters, 1-2 chunks), dns (names x types x classes x all 16 allow/deny/default_deny/prefer_allow combinations, TCP/UDP, header-bit corruptions), rdp (negotiation flags/protocol bits, cookie filters, structural corruptions), http (methods, hosts, paths, headers x request matcher sets), remote_ip/local_ip and 'not' (IPv4/IPv6 prefixes), clock (window boundaries +-1 s, swapped bounds, 24:00, fixed-offset and IANA zones on DST days); reference predicates are written in the harness from the wire definitions and the modules' documented filter semantics",
 		Assumptions: []string{
 			"for 'no' cases an undecided verdict or an error also counts as not matching",
 			"RDP token routing, OpenVPN auth/crypt/crypt2 modes and HTTP/2 are exercised by C04/C06/C18 but have no independent predicate here",
